@@ -33,7 +33,7 @@ def peer_spec(case, lists=None, sizes=None):
     ca = {'t': 'rsa', 'bits': sizes['ca']} if sizes['ca_type'] == 'rsa' else ({'t': 'ed25519'} if sizes['ca_type'] == 'ed25519' else {'t': 'ecdsa', 'curve': 'nistp256'})
     hk[RSA_CERT] = {'t': 'cert', 'kind': RSA_CERT, 'bits': sizes['cert_host'], 'ca': ca}
     hk[ED_CERT] = {'t': 'cert', 'kind': ED_CERT, 'ca': ca}
-    spec = {'banner': case.get('banner', 'SSH-2.0-OpenSSH_9.6'), 'kex': lists['kex'], 'key': lists['key'], 'enc': lists['enc'], 'mac': lists['mac'], 'hostkeys': {k: v for k, v in hk.items() if k in lists['key'] or k in RSA_FAMILY}}
+    spec = {'banner': case.get('banner', 'SSH-2.0-OpenSSH_9.6'), 'kex': lists['kex'], 'key': lists['key'], 'enc': lists['enc'], 'mac': lists['mac'], 'enc_c': case.get('enc_c'), 'mac_c': case.get('mac_c'), 'hostkeys': {k: v for k, v in hk.items() if k in lists['key'] or k in RSA_FAMILY}}
     if any(k.startswith('diffie-hellman-group-exchange') for k in lists['kex']):
         spec['moduli'] = [sizes['gex']]
         spec['gex_style'] = 'roundup'
@@ -188,8 +188,13 @@ def strat_peer():
             kex = [k for k in kex if k not in PROBE_KEX and not k.startswith('diffie-hellman-group') and not k.startswith('ecdh-sha2-nistp') and not k.startswith('curve25519')] or ['sntrup761x25519-sha512@openssh.com']
         if with_gex and GEX not in kex:
             kex.append(GEX)
-        return {'kind': 'roundtrip', 'role': role, 'probeable': probeable or GEX in kex, 'lists': {'kex': kex, 'key': key, 'enc': list(dict.fromkeys(enc)), 'mac': list(dict.fromkeys(mac))},
+        case = {'kind': 'roundtrip', 'role': role, 'probeable': probeable or GEX in kex, 'lists': {'kex': kex, 'key': key, 'enc': list(dict.fromkeys(enc)), 'mac': list(dict.fromkeys(mac))},
                 'sizes': {'rsa': rsa, 'ca': ca, 'ca_type': ca_type, 'cert_host': cert_host, 'gex': gex}}
+        if (rsa + ca + gex) % 3072 == 0:
+            # the other direction advertises something else (peers may list different algorithms per direction)
+            case['enc_c'] = case['lists']['enc'][::-1] + ['aes128-ctr']
+            case['mac_c'] = ['hmac-sha2-512'] + case['lists']['mac']
+        return case
     return st.tuples(st.lists(nm('kex'), min_size=1, max_size=5), st.lists(nm('key'), min_size=0, max_size=3), st.lists(nm('enc'), min_size=1, max_size=5), st.lists(nm('mac'), min_size=1, max_size=5),
                      st.one_of(st.none(), st.sampled_from(PROBE_KEX), st.sampled_from(PROBE_KEX)), st.lists(st.sampled_from(['ssh-rsa', 'rsa-sha2-512', 'rsa-sha2-256', 'ssh-ed25519', RSA_CERT, ED_CERT]), min_size=1, max_size=4, unique=True),
                      st.sampled_from(['server', 'server', 'server', 'client']), st.sampled_from([2048, 3072, 4096]), st.sampled_from([2048, 3072, 4096]), st.sampled_from(['rsa', 'rsa', 'ed25519']), st.sampled_from([2048, 3072, 4096]),
@@ -204,7 +209,7 @@ def valid_case(case):
 
 def run(ctx):
     from ssh_audit.builtin_policies import BUILTIN_POLICIES
-    n = 250 if ctx.quick else 5000
+    n = 1500 if ctx.quick else 30000
     ctx.hyp('strat_peer', n, label=1, shards=16)
     bc = []
     for p, pol in BUILTIN_POLICIES.items():
